@@ -493,6 +493,15 @@ func (s *Server) updateBlockHeader(ev UpdateExistedHeaderEvent) {
 		logging.Error("UpdateExistedHeader failed. Get UconValidators failed.", "Round", ev.Round, "RoundIndex", ev.RoundIndex, "err", err)
 		return
 	}
+	// The votes of an update event were signed for (block, round, ev.RoundIndex); the header's vote set was
+	// committed in ucValidators.RoundIndex and is verified against exactly that payload. Votes of another round
+	// index (stale precommits for the same block, counted in the wrapper of the index the block was NOT committed
+	// in) can never verify under this header: with BLS they would poison the aggregated signature and the stored
+	// header would be rejected by every verifier, with secp256k1 they are dead weight. Only merge matching votes.
+	if ev.RoundIndex != ucValidators.RoundIndex {
+		logging.Warn("UpdateExistedHeader skipped: votes of another round index.", "Round", ev.Round, "RoundIndex", ev.RoundIndex, "HeaderRoundIndex", ucValidators.RoundIndex)
+		return
+	}
 	logging.Info("UpdateExistedHeader before.", "Round", ev.Round, "Chamber", len(chamberAddrs),
 		"House", len(houseAddrs))
 
